@@ -2,7 +2,7 @@
 //@ props: C12
 //@ source: src/dap/yadap/session/control.rs
 //@ fn: DebugSession::emit_stop_reason (from the classification of the stop to the end)
-//@ assume: the classification `match stop {..}` and the stack-trace text are outlined whole (ext fns; `exited` is Some exactly for a process exit); refresh_threads_with_events queues one thread event per change of the thread table; drain_events writes a batch but, when the batch holds Exited/Terminated, only those (lifecycle events dominate: everything else in that batch is thrown away; unit C12.drain); enqueue_event queues one event
+//@ assume: the classification `match stop {..}` and the stack-trace text are outlined whole (ext fns; `exited` is Some exactly for a process exit); refresh_threads_with_events queues one thread event per change of the thread table; drain_events writes a batch but, when the batch holds Exited/Terminated, only those (lifecycle events dominate: everything else in that batch is thrown away; unit C12.drain); enqueue_event queues one event; precondition R_fresh_batch (no thread refresh and no Exited waiting in the queue when emit_stop_reason classifies the stop) is assumed of the callers: every handler drains its own events before it resumes the debuggee (C12.handlers)
 //@ notcovered: the filter loop in front (C13.stop_filter), contents of the events
 use vstd::prelude::*;
 verus! {
